@@ -54,6 +54,26 @@ WHAT = {
  'S-C10-3': 'Game::make_move checks legality by destination mask + source square only: a bogus promotion field is accepted and logged',
  'S-C12-3': 'destination fallback branches merged: a non-capturing promotion followed by a check sign (`e8Q+`) is rejected',
  'S-C14-3': 'len() subtracts promotion_index inside every promotion entry instead of once',
+ 'S-C04-3': 'status() as a tuple match on (move count, checkers.popcnt()) with arms (0,0) and (0,1) only: a double-check mate is Ongoing',
+ 'S-C09-3': 'Zobrist generator reuses the sparse random_bitboard helper: one piece key is zero',
+ 'S-C11-3': 'moves classified after they are made (`next.piece_on(dest) == Pawn`): a quiet promotion does not reset the counter',
+ 'S-C13-3': 'UCI null-move support: Display prints "0000" whenever source == dest; from_str("0000") returns ChessMove::default()',
+ 'S-C15-3': 'BMI2 table generator uses a software pext that loops over bits 0..63: h8 is never extracted (bmi2 configuration only)',
+ 'S-C16-3': 'Square::uleft as index arithmetic with a plain `- 1`: A1.uleft() overflows',
+ 'S-C17-3': 'double-pawn-step check recorded only if the king stands on `dest.get_rank().up()`: true for White pawns only',
+ 'S-C18-3': 'update_pin_info split into pin_info(color); one side_to_move left unparametrised (pawn attack direction) and null_move passes the other colour',
+ 'S-C19-3': 'get/add index through a 32-bit fold helper, replace_if left on the plain index: the three operations disagree on the slot',
+ 'S-C20-3': 'to_square scans the two 32-bit halves; the "both halves occupied" case falls into the high-half arm',
+ 'S-C01-4': 'en-passant branch of make_move no longer adds the capturing pawn\'s direct check: the generator sees a side in check as not in check',
+ 'S-C02-4': 'set_ep skipped when the double push itself gives check',
+ 'S-C03-4': 'null_move replaces update_pin_info by an inlined pins-only scan that does not reset `pinned` first',
+ 'S-C06-4': 'FEN writer computes the en-passant field through left()?/right()?: a- and h-file pushes print `-`',
+ 'S-C07-4': 'men bound per colour replaced by a bound on the whole board (<= 32): 25 white men are accepted',
+ 'S-C08-4': 'in-place make_move initialises the output field by field and leaves `hash` to the buffer\'s old value',
+ 'S-C10-4': 'result() guard of can_declare_draw folded into the replay loop without a DeclareDraw arm: a declared draw can be declared again',
+ 'S-C11-4': 'pawn move detected on the board after the move: a quiet promotion neither resets the counter nor clears the list',
+ 'S-C12-4': '`exact_source` flag read before the destination fallback: bare ambiguous texts (`Nc3`, `Rd1`) return the first candidate',
+ 'S-C14-4': 'next() advances past a promotion entry only when its bitboard is empty (not empty under the mask): iteration stops early under a mask',
 }
 
 
